@@ -103,6 +103,7 @@ type machine struct {
 	obs      []observation
 	viols    []violation
 	unknowns int
+	branchUnknowns int
 	newAlts  [][]dec
 
 	steps    int64
@@ -151,6 +152,7 @@ func (m *machine) beginPath(prefix []dec) {
 	m.obs = nil
 	m.viols = nil
 	m.unknowns = 0
+	m.branchUnknowns = 0
 	m.newAlts = nil
 	m.steps = 0
 	m.depth = 0
@@ -289,8 +291,12 @@ func (m *machine) decide(c *Term, why string) bool {
 	var tF, fF SatResult
 	unk := func(r SatResult) SatResult {
 		if r == Unknown {
-			m.unknowns++
-			m.E.noteUnknown("branch feasibility unknown (" + why + ")")
+			// over-approximation: the branch is explored as if feasible. Every assertion on it is
+			// still decided by the solver and every counterexample is replayed before it is
+			// reported, so a branch that is in fact infeasible cannot turn into a false alarm
+			// and cannot hide a violation; it is counted separately, not as an inconclusive run.
+			m.branchUnknowns++
+			m.E.noteUnknown("branch feasibility unknown, explored as feasible (" + why + ")")
 		}
 		return r
 	}
